@@ -23,6 +23,8 @@ SHAPES = {
     "cambered": (0.0, 1.0, 0.0, 0.0, 0.04),
     "dihedral": (0.0, 1.0, 0.15, 0.0, 0.0),
     "all": (0.35, 0.55, 0.1, -0.06, 0.03),
+    # forward sweep with a 52-degree dihedral: panel normals far from the z axis, spanwise extent mostly vertical
+    "steep": (-0.3, 0.7, 1.3, 0.04, 0.02),
 }
 
 
